@@ -91,9 +91,11 @@ func newSchema(table string, master []sqliteMaster) (*Schema, error) {
 // itself (SQLite refuses everything else, expressions included). A stored
 // definition which does otherwise is not something we can interpret.
 func checkConstraintColumns(ct sql.CreateTableStmt) error {
+	// same comparison as Schema.Column(), which resolves these names later
 	has := func(name string) bool {
+		u := strings.ToLower(name)
 		for _, c := range ct.Columns {
-			if strings.EqualFold(c.Name, name) {
+			if strings.ToLower(c.Name) == u {
 				return true
 			}
 		}
